@@ -149,6 +149,36 @@ Print Assumptions C09_src_pin_operations_new.
 From XcpProofs Require Import XState.
 From Coq Require Import String.
 Theorem C09_src_no_state_carried_between_files :
-  x_static_items = ["libxcp/src/backup.rs::BAK_REGEX"%string] /\ x_thread_locals = [] /\ x_umask_calls = 0%N.
+  x_static_items = ["libxcp/src/backup.rs::BAK_REGEX"; "libxcp/src/operations.rs::BACKUP_STEP"]%string /\ x_thread_locals = [] /\ x_umask_calls = 0%N.
 Proof. exact x_process_wide_state_ok. Qed.
 Print Assumptions C09_src_no_state_carried_between_files.
+
+(* ---- more glue on this property's path, pinned token for token ---- *)
+From XcpPins Require Import Pin_backup_ls_file_dir Pin_backup_next_backup_num Pin_backup_needs_backup Pin_operations_tree_walker.
+Theorem C09_src_pin_backup_ls_file_dir : pin_unchanged name_backup_ls_file_dir.
+Proof. exact pin_backup_ls_file_dir. Qed.
+Theorem C09_src_pin_backup_next_backup_num : pin_unchanged name_backup_next_backup_num.
+Proof. exact pin_backup_next_backup_num. Qed.
+Theorem C09_src_pin_backup_needs_backup : pin_unchanged name_backup_needs_backup.
+Proof. exact pin_backup_needs_backup. Qed.
+Theorem C09_src_pin_operations_tree_walker : pin_unchanged name_operations_tree_walker.
+Proof. exact pin_operations_tree_walker. Qed.
+Print Assumptions C09_src_pin_backup_ls_file_dir.
+Print Assumptions C09_src_pin_backup_next_backup_num.
+Print Assumptions C09_src_pin_backup_needs_backup.
+Print Assumptions C09_src_pin_operations_tree_walker.
+
+(* ---- two workers of one run overwriting f and f.~1~ with numbered backups (BackupRace.v): with the backup step
+   serialised (repair a649b3d; step codes 27/28 of CopyHandle::new) both orders end in the same directory with every
+   old version preserved; without it, a scan falling into the other worker's gap loses a version ---- *)
+From XcpModel Require Import BackupRace.
+From XcpProofs Require Import BackupRaceProofs.
+Theorem C09_backup_step_orders_agree : forall oldf oldb newf newb,
+  snapshot (run newf newb (d_init oldf oldb) sched_AB) = snapshot (run newf newb (d_init oldf oldb) sched_BA) /\
+  snapshot (run newf newb (d_init oldf oldb) sched_AB) = [Some newf; Some newb; Some oldf; None; Some oldb; None].
+Proof. exact locked_overwrites_commute. Qed.
+Theorem C09_backup_step_unserialised_refuted : exists oldf oldb newf newb,
+  snapshot (run newf newb (d_init oldf oldb) sched_gap) <> snapshot (run newf newb (d_init oldf oldb) sched_AB).
+Proof. exact unlocked_outcome_depends_on_schedule. Qed.
+Print Assumptions C09_backup_step_orders_agree.
+Print Assumptions C09_backup_step_unserialised_refuted.
